@@ -62,6 +62,12 @@ def scenarios(tier):
     w.add_file("r/x y'z", _c(5))
     w.add_dir("T")
     sc.append({"name": "tempsibling", "world": w.to_json(), "roots": ["r"], "gargs": []})
+    # S3b target on a second simulated device: move goes through copy + remove (several writes)
+    w = World()
+    w.add_file("r/a", _c(15, 70000))
+    w.add_file("r/b", _c(15, 70000))
+    w.add_dir("T")
+    sc.append({"name": "seconddev-small", "world": w.to_json(), "roots": ["r"], "gargs": [], "dev2": "T", "ops": ["move"]})
     if tier == "thorough":
         # S4 symlink members reported with -S
         w = World()
@@ -142,7 +148,7 @@ def record(sc, op, plan=None):
 
 def gen_cases(tier, seed):
     for sc in scenarios(tier):
-        for op in ops.OPS:
+        for op in sc.get("ops", ops.OPS):
             mut, res = record(sc, op)
             if res.rc != 0:
                 raise core.HarnessError("fault-free %s failed in scenario %s: %r" % (op, sc["name"], res.err[-400:]))
